@@ -303,7 +303,7 @@ fn find_subslice_from(haystack: &[String], needle: &[String], start: usize) -> O
 
 #[cfg(kani)]
 #[path = "/verif/harness/rip-workspace/patch.rs"]
-mod verif_kani;
+pub mod verif_kani;
 
 #[cfg(test)]
 mod tests {
